@@ -592,6 +592,60 @@ Theorem C01_inner_test_examples :
 Proof. exact RejectExamples.ex_unknown_in_test_list. Qed.
 Print Assumptions C01_inner_test_examples.
 
+(* later positions of a test list (after any number of complete tests of the grammar): a missing comma, a comma before ')', an unknown name or an action after a comma -- rejected at that token *)
+Theorem C01_test_list_later_rejected :
+  forall T : tables,
+  twf_tables T = true ->
+  forall (text : bytes) (pre : list token) (tn tl lp : token) (ttoks cm : list token)
+    (t : token) (rest : list token) (L : list bytes) (prev : option bytes) 
+    (k : nat) (d : cmddef) (a : argdef) (dl : cmddef) (al : argdef) 
+    (ts : list gtest) (ns : list node),
+  wf_prefix T (map strip_pos pre) L prev k ->
+  fst (lex text) = pre ++ tn :: tl :: lp :: ttoks ++ cm ++ t :: rest ->
+  t_kind tn = TIdentifier ->
+  get_command_instance T L (t_val tn) = inl d ->
+  d_type d = CControl ->
+  d_accept_children d = true ->
+  d_args d = [a] ->
+  is_t1 a = true ->
+  t_kind tl = TIdentifier ->
+  get_command_instance T L (t_val tl) = inl dl ->
+  d_type dl = CTest ->
+  d_args dl = [al] ->
+  is_tl al = true ->
+  d_expected_first dl = Some [TLeftParen] ->
+  t_kind lp = TLeftParen ->
+  ts <> [] ->
+  Forall2 (wf_test T L) ts ns ->
+  map strip_pos ttoks = toks_tests ts ->
+  cm = [] \/ (exists c : token, cm = [c] /\ strip_pos c = mk TComma [44%N]) ->
+  not_comment (t_kind t) = true ->
+  match cm with
+  | [] =>
+      kind_mem (t_kind t) [TComma; TRightParen] = false ->
+      parse T text = Reject EExpected (t_pos t) (Datatypes.length (t_val t))
+  | _ :: _ =>
+      match t_kind t with
+      | TIdentifier =>
+          match get_command_instance T L (t_val t) with
+          | inl d' =>
+              d_type d' <> CTest ->
+              parse T text =
+              Reject (ENotTest (d_name d')) (t_pos t) (Datatypes.length (t_val t))
+          | inr e => parse T text = Reject e (t_pos t) (Datatypes.length (t_val t))
+          end
+      | _ => parse T text = Reject EExpected (t_pos t) (Datatypes.length (t_val t))
+      end
+  end.
+Proof. exact RejectFacts.test_list_later_rejected. Qed.
+Print Assumptions C01_test_list_later_rejected.
+
+(* non-vacuity: `if anyof (true true)` (with ex_unknown_after_comma, ex_comma_before_paren) *)
+Theorem C01_test_list_later_examples :
+  parse gen_tables (bs (px_text ++ "if anyof (true true) { } }")) = Reject EExpected 61 4.
+Proof. exact RejectExamples.ex_missing_comma_in_test_list. Qed.
+Print Assumptions C01_test_list_later_examples.
+
 (* in the arguments of a test that still needs arguments: a tag it does not take, a tag whose extension is not loaded, a value of the wrong type -- rejected at that token *)
 Theorem C01_test_argument_rejected :
   forall T : tables,
@@ -647,7 +701,7 @@ Theorem C01_misplaced_else_example :
 Proof. exact RejectExamples.ex_misplaced_else. Qed.
 Print Assumptions C01_misplaced_else_example.
 
-(* non-vacuity on the generated tables (one of twenty-five examples in sieve/RejectExamples.v: prefix `require ["fileinto"]; if size :over 100K {`) *)
+(* non-vacuity on the generated tables (one of twenty-eight examples in sieve/RejectExamples.v: prefix `require ["fileinto"]; if size :over 100K {`) *)
 Theorem C01_reject_examples :
   let text := bs (px_text ++ "foo ""x""; }") in
   parse gen_tables text = Reject (EUnknownCommand (bs "foo")) 46 3 /\
